@@ -1,11 +1,25 @@
-"""Minimal fake asyncio transport for the C07 session runs: records what the protocol does to
-it and, like real transports, delivers `connection_lost` through `loop.call_soon` after
-`close()` / `abort()`."""
+"""Fake asyncio transport and the two probes (a framer alone; a `MessageSession` on the fake
+transport) shared by harness/c07.py and tools/facts/c07.py.  Only the library's public surface
+is used: `BitcoinFramer(magic=, max_block_size=)`, the attribute `max_payload_size`,
+`received_bytes`, `receive_message`, the three exception classes, `MessageSession`,
+`handle_message`, `errors`, `RSTransport`.
+
+`connection_lost` is delivered like real transports do it: through the loop, *after* `close()` /
+`abort()` - at once (`lose=0`: `call_soon`, what asyncio does when its write buffer is empty),
+after a delay (`lose=<seconds>`: unsent data still being flushed) or not before `abort()`
+(`lose=None`: a peer that does not take the data)."""
 import asyncio
+
+FATAL = ('BadMagicError', 'OversizedPayloadError')
+ERRS = ('BadMagicError', 'OversizedPayloadError', 'BadChecksumError')
+
+
+class ProbeError(Exception):
+    """the probe itself could not be set up on this tree (machinery, never a verdict)"""
 
 
 class FakeTransport(asyncio.Transport):
-    def __init__(self):
+    def __init__(self, lose=0):
         super().__init__()
         self.log = []
         self.written = []
@@ -14,6 +28,7 @@ class FakeTransport(asyncio.Transport):
         self.reading = True
         self.protocol = None
         self.lost_delivered = False
+        self.lose = lose
 
     def get_extra_info(self, name, default=None):
         return ('192.0.2.1', 8333) if name == 'peername' else default
@@ -31,13 +46,19 @@ class FakeTransport(asyncio.Transport):
         self.log.append(('close',))
         if not self.closing:
             self.closing = True
-            asyncio.get_event_loop().call_soon(self._lose)
+            loop = asyncio.get_event_loop()
+            if self.lose is None:
+                pass
+            elif self.lose > 0:
+                loop.call_later(self.lose, self._lose)
+            else:
+                loop.call_soon(self._lose)
 
     def abort(self):
         self.log.append(('abort',))
         self.aborted = True
-        if not self.closing:
-            self.closing = True
+        self.closing = True
+        if not self.lost_delivered:
             asyncio.get_event_loop().call_soon(self._lose)
 
     def is_closing(self):
@@ -52,10 +73,133 @@ class FakeTransport(asyncio.Transport):
         self.log.append(('resume_reading',))
 
 
-def connect(rawsocket, session_factory, framer, kind):
+def connect(rawsocket, session_factory, framer, kind, lose=0):
     """RSTransport wired to a FakeTransport; returns (protocol, fake, session)."""
     proto = rawsocket.RSTransport(session_factory, framer, kind)
-    fake = FakeTransport()
+    fake = FakeTransport(lose)
     fake.protocol = proto
     proto.connection_made(fake)
     return proto, fake, proto.session
+
+
+def classify(framing, e):
+    for name in ERRS:
+        cls = getattr(framing, name, None)
+        if isinstance(cls, type) and isinstance(e, cls):
+            return ('E', name)
+    return ('X', type(e).__name__)
+
+
+def new_framer(framing, magic, mp, mb, default_class=False, base=None):
+    """A framer with the given magic and limits.  The payload limit is set on the *instance*
+    (works whether the library keeps it as a class or an instance attribute)."""
+    cls = base or framing.BitcoinFramer
+    if default_class:
+        return cls()
+    fr = cls(magic=magic, max_block_size=mb)
+    fr.max_payload_size = mp
+    return fr
+
+
+async def recv_outcomes(framing, fr, chunks, mode=0, bound=None):
+    """Successive `receive_message()` outcomes of framer `fr` fed `chunks`:
+    ('M', cmd, payload) / ('E', class name) / ('X', other exception).
+    mode 0: everything queued before the reader starts; 1: reader drains after each chunk;
+    2: reader started first, chunks fed in pairs.  The reader is stopped when no task can run
+    any more (virtual time only advances then)."""
+    out = []
+    if bound is None:
+        bound = sum(len(c) for c in chunks) // 24 + 2
+
+    async def reader():
+        while True:
+            if len(out) > bound:
+                # more outcomes than headers fit in the stream: stop instead of spinning
+                out.append(('X', 'Runaway'))
+                return
+            try:
+                c, p = await fr.receive_message()
+                out.append(('M', bytes(c), bytes(p)))
+            except asyncio.CancelledError:
+                raise
+            except Exception as e:
+                kind = classify(framing, e)
+                out.append(kind)
+                if kind[0] == 'X':
+                    return
+
+    task = None
+    if mode != 0:
+        task = asyncio.ensure_future(reader())
+        await asyncio.sleep(0)
+    for i, c in enumerate(chunks):
+        fr.received_bytes(bytes(c))
+        if mode == 1 or (mode == 2 and i % 2 == 1):
+            for _ in range(3):
+                await asyncio.sleep(0)
+    if task is None:
+        task = asyncio.ensure_future(reader())
+    await asyncio.sleep(1e-6)
+    task.cancel()
+    try:
+        await task
+    except BaseException:
+        pass
+    return out
+
+
+_limit_ok = {}
+
+
+async def limit_takes_effect(framing):
+    """Does setting `max_payload_size` on the instance really move the limit?  (If not, every
+    small-limit case would silently run with the default limit: machinery trouble, not a
+    verdict.)"""
+    key = id(framing)
+    if key not in _limit_ok:
+        magic = bytes.fromhex('a1b2c3d4')
+        res = []
+        for mp, n in ((3, 3), (3, 4), (6, 6), (6, 7)):
+            fr = new_framer(framing, magic, mp, 0)
+            payload = bytes(n)
+            import hashlib
+            ck = hashlib.sha256(hashlib.sha256(payload).digest()).digest()[:4]
+            s = magic + b'x'.ljust(12, b'\0') + n.to_bytes(4, 'little') + ck + payload
+            out = await recv_outcomes(framing, fr, [s])
+            res.append(bool(out) and out[0][0] == 'E' and out[0][1] == 'OversizedPayloadError')
+        _limit_ok[key] = (res == [False, True, False, True])
+    return _limit_ok[key]
+
+
+async def sess_observe(mods, framer, chunks, kind='client', lose=0, mode=0, events=None):
+    """Feed `chunks` to a MessageSession (on the fake transport) that uses `framer`; returns
+    {'fed', 'delivered', 'errors', 'closed', 'log'}.  A transport that is closing delivers no
+    more data, so feeding stops there; `fed` = the chunks that were delivered."""
+    framing, session, rawsocket = mods
+    delivered = []
+
+    class Sess(session.MessageSession):
+        async def handle_message(self, message):
+            delivered.append((bytes(message[0]), bytes(message[1])))
+
+    k = session.SessionKind.CLIENT if kind == 'client' else session.SessionKind.SERVER
+    proto, fake, sess = connect(rawsocket, Sess, framer, k, lose)
+    fed = []
+    for i, c in enumerate(chunks):
+        if fake.closing:
+            break                      # a closed transport delivers no more data
+        proto.data_received(bytes(c))
+        fed.append(bytes(c))
+        if mode == 1 or (mode == 2 and i % 2 == 1):
+            await asyncio.sleep(0.01)
+    await asyncio.sleep(1.0)
+    obs = {'fed': fed, 'delivered': list(delivered), 'errors': sess.errors,
+           'closed': bool(fake.closing), 'log': [x[0] for x in fake.log]}
+    if events is not None:
+        obs['events'] = list(events)
+    try:
+        fake.abort()
+        await asyncio.sleep(0.01)
+    except Exception:
+        pass
+    return obs
